@@ -314,8 +314,31 @@ func tokenSpans(text string) [][2]int {
 func genC18Seq(t *rapid.T) c18Seq {
 	n := rapid.IntRange(2, 5).Draw(t, "n")
 	var c c18Seq
+	glist := func(label string) string {
+		// a graph list of 1-5 names over four graphs, repeats allowed
+		k := rapid.IntRange(1, 5).Draw(t, label+"n")
+		var gs []string
+		for j := 0; j < k; j++ {
+			gs = append(gs, rapid.SampledFrom([]string{"?a", "?b", "?c", "?d"}).Draw(t, label))
+		}
+		return strings.Join(gs, ", ")
+	}
 	for i := 0; i < n; i++ {
 		s := rapid.SampledFrom(c18Pool).Draw(t, "stmt")
+		if rapid.IntRange(0, 4).Draw(t, "glist?") == 0 {
+			switch rapid.IntRange(0, 4).Draw(t, "gkind") {
+			case 0:
+				s = "create graph " + glist("cg") + ";"
+			case 1:
+				s = "drop graph " + glist("dg") + ";"
+			case 2:
+				s = "select ?s from " + glist("sg") + " where {?s ?p ?o};"
+			case 3:
+				s = "insert data into " + glist("ig") + " {/u<a> \"p\"@[] /u<b>};"
+			default:
+				s = "construct {?s \"p\"@[] ?o} into " + glist("og") + " from " + glist("fg") + " where {?s \"p\"@[] ?o};"
+			}
+		}
 		switch rapid.IntRange(0, 9).Draw(t, "form") {
 		case 0, 1, 2, 3: // truncated at a token boundary
 			sp := tokenSpans(s)
@@ -422,6 +445,14 @@ func checkC18Seq(ctx *pbt.Ctx, c c18Seq) error {
 		case ferr == nil:
 			fm, fp := meaningOf(fst)
 			sm, sp := meaningOf(sst)
+			// determined by the text alone: a second fresh parser extracts the same meaning
+			fresh2, _ := grammar.NewParser(grammar.SemanticBQL())
+			fst2 := &semantic.Statement{}
+			if ferr2, fpan2 := safeParse(fresh2, s, fst2); ferr2 == nil && fpan2 == nil {
+				if fm2, fp2 := meaningOf(fst2); fp2 == nil && fp == nil && fm2 != fm {
+					return fmt.Errorf("statement %d %q: two fresh parsers extract different meanings from the same text:\n--- first\n%s--- second\n%s", i, s, fm, fm2)
+				}
+			}
 			if fp != nil || sp != nil {
 				mismatch = fmt.Sprintf("statement accessors panic: fresh %v reused %v", fp, sp)
 			} else if fm != sm {
